@@ -180,6 +180,6 @@ def run(O, P):
     O.coverage["executed_pairs"] = len(jobs)
     O.coverage["events_observed_in_input_runs"] = events
     O.assumptions += ["H1 identifier reads have no side effects (no with-proxies, no global accessors); H2 reading .call/.apply/.bind of a callable is silent; "
-                      "H5 undefined is not rebound; hooks are pass-through (the prologue's noop hooks)",
+                      "H5 undefined is not rebound; H6 a computed key is coerced to a property key at each access (read and write), as V8 does for o[k] += e; hooks are pass-through (the prologue's noop hooks)",
                       "exemptions of the property: error-message text, positions, reserved names, static X.prototype.m path vs this-argument order, coercion time of template substitutions",
                       "the execution oracle samples worlds (deterministic proxies, one mutator); the theorems quantify over all of them"]
